@@ -266,7 +266,20 @@ def _k3(run: Run, w: World) -> None:
                     for cc in node_calls(x):
                         if isinstance(cc.func, ast.Attribute) and cc.func.attr == "append" and cc.args \
                                 and not (lt & {y.id for y in ast.walk(cc.args[0]) if isinstance(y, ast.Name)}):
-                            vacuous = cc
+                            # admissible only where the path condition has established that EVERY component of the element is a zero/inf/NaN value:
+                            # all(is_any_dimension(c.scale_factor) for c in <element>.components)
+                            st_ = stmt_of(f.fn, cc)
+                            conds_ = [t_ for t_, pol_ in (conditions_for(f.fn, st_, stop=ln.ast) or []) if not isinstance(t_, str) and pol_ is True]
+                            established = False
+                            for t_ in conds_:
+                                for al in [y for y in ast.walk(t_) if isinstance(y, ast.Call) and dotted(y.func) == "all" and y.args and isinstance(y.args[0], (ast.GeneratorExp, ast.ListComp))]:
+                                    g_ = al.args[0]
+                                    over_element = any(lt & {z.id for z in ast.walk(gen.iter) if isinstance(z, ast.Name)} for gen in g_.generators)
+                                    tests_any = isinstance(g_.elt, ast.Call) and dotted(g_.elt.func) == "is_any_dimension" and not g_.generators[0].ifs
+                                    if over_element and tests_any:
+                                        established = True
+                            if not established:
+                                vacuous = cc
         if vacuous is not None:
             detail = (f"`{norm(vacuous, 60)}` puts a value that does not come from the argument into the list of checked components: "
                       f"that element of the argument is never dimension-checked (a zero matches every dimension)")
